@@ -29,6 +29,7 @@ RULE = (
 )
 RULE += '; modification attempts also go around __setattr__ (object.__setattr__, vars())'
 RULE += "; other libraries' sentinels as predicate arguments; __weakref__ / __dict__ / weakref.ref probes"
+RULE += '; the Missing type as predicate argument; exception instances as fallbacks'
 LEVEL_TEXT = (
     "Identity oracle: every position that held MISSING before copy/deepcopy/pickle must hold the very same object "
     "after; predicates must agree with identity for every generated value. The operation x protocol x shape(depth<=2) "
@@ -82,7 +83,8 @@ class ClaimsMissing:
         return (ClaimsMissing, ())
 
 
-_FOREIGN_SENTINELS = [dataclasses.MISSING, __import__("inspect").Parameter.empty, Ellipsis, NotImplemented]
+# sentinels of other libraries, and the Missing TYPE itself (the class is not the value)
+_FOREIGN_SENTINELS = [dataclasses.MISSING, __import__("inspect").Parameter.empty, Ellipsis, NotImplemented, Missing, type(MISSING)]
 LIKES = [None, False, 0, "", (), [], {}, AlwaysEq(), Falsy(), 0.0, "MISSING", ClaimsMissing()]
 
 
@@ -280,7 +282,7 @@ def _fallback_fn():
     raise AssertionError("the fallback value was called")
 
 
-_FALLBACKS = [dict, list, _fallback_fn, Missing, MISSING, None, 0, "", len]
+_FALLBACKS = [dict, list, _fallback_fn, Missing, MISSING, None, 0, "", len, ValueError("a fallback value"), KeyError, StopIteration("a fallback value")]
 
 
 def check_predicates(out: Outcome, x):
